@@ -337,7 +337,6 @@ func parseClassSet(sc *scanner) class {
 		set.IsNot = true
 		sc.Next()
 	}
-	isrange := false
 	for {
 		ch := sc.Peek()
 		switch ch {
@@ -348,33 +347,26 @@ func parseClassSet(sc *scanner) class {
 		case ']':
 			if len(set.Classes) > 0 {
 				sc.Next()
-				goto exit
-			}
-			fallthrough
-		case '-':
-			if len(set.Classes) > 0 {
-				sc.Next()
-				isrange = true
-				continue
+				return set
 			}
 			fallthrough
 		default:
-			set.Classes = append(set.Classes, parseClass(sc, false))
-		}
-		if isrange {
-			begin := set.Classes[len(set.Classes)-2]
-			end := set.Classes[len(set.Classes)-1]
-			set.Classes = set.Classes[0 : len(set.Classes)-2]
-			set.Classes = append(set.Classes, &rangeClass{begin, end})
-			isrange = false
+			cls := parseClass(sc, false)
+			// "x-y" is a range only if x is a plain character and '-' is not the last
+			// character of the set; the end of a range is always taken literally (lstrlib)
+			if begin, ok := cls.(*charClass); ok && sc.Peek() == '-' {
+				sc.Save()
+				sc.Next()
+				if end := sc.Peek(); end != ']' && end != EOS {
+					sc.Next()
+					cls = &rangeClass{begin, &charClass{end}}
+				} else {
+					sc.Restore()
+				}
+			}
+			set.Classes = append(set.Classes, cls)
 		}
 	}
-exit:
-	if isrange {
-		set.Classes = append(set.Classes, &charClass{'-'})
-	}
-
-	return set
 }
 
 func parsePattern(sc *scanner, toplevel bool) *seqPattern {
